@@ -275,3 +275,45 @@ func SortedNames(m map[string]bool) []string {
 	sort.Strings(out)
 	return out
 }
+
+// CanonFile serialises everything a caller can observe of one file match except scores and
+// statistics (used by differential oracles).
+func CanonFile(f *zoekt.FileMatch) string {
+	var sb strings.Builder
+	fmt.Fprintf(&sb, "%s|%s|%v|%s|%x|%s|", f.Repository, f.FileName, f.Branches, f.Language, f.Checksum, f.Version)
+	type lm struct {
+		n   int
+		txt string
+	}
+	var ls []string
+	for _, m := range f.LineMatches {
+		s := fmt.Sprintf("L%d[%d,%d)%v:", m.LineNumber, m.LineStart, m.LineEnd, m.FileName)
+		for _, fr := range m.LineFragments {
+			s += fmt.Sprintf("%d+%d,", fr.Offset, fr.MatchLength)
+		}
+		ls = append(ls, s)
+	}
+	for _, m := range f.ChunkMatches {
+		s := fmt.Sprintf("C%d:%q:", m.ContentStart.ByteOffset, m.Content)
+		for _, rg := range m.Ranges {
+			s += fmt.Sprintf("%d-%d,", rg.Start.ByteOffset, rg.End.ByteOffset)
+		}
+		ls = append(ls, s)
+	}
+	sort.Strings(ls) // matches of a file are ordered by score; compare as a set
+	sb.WriteString(strings.Join(ls, ";"))
+	if f.Content != nil {
+		fmt.Fprintf(&sb, "|content=%q", f.Content)
+	}
+	return sb.String()
+}
+
+// CanonFiles is the sorted list of CanonFile over a result.
+func CanonFiles(res *zoekt.SearchResult) []string {
+	var out []string
+	for i := range res.Files {
+		out = append(out, CanonFile(&res.Files[i]))
+	}
+	sort.Strings(out)
+	return out
+}
